@@ -26,10 +26,13 @@ W = dict(once=0.75, nick=0.6, ref=0.3, formula=0.4, nested=0.06, friend=0.3, fwd
 
 def gen_case(rng):
     from .c04 import row_valued_in_once
-    for _ in range(50):
-        r, feats = S.gen_recipe(rng, W)
-        if "just_once" in feats and not row_valued_in_once(r):
-            break
+    if rng.random() < 0.25:      # directed streams (DESIGN.md 11.4)
+        r, feats = rng.choice([S.stream_once_cluster, S.stream_once_hidden])(rng)
+    else:
+        for _ in range(50):
+            r, feats = S.gen_recipe(rng, W)
+            if "just_once" in feats and not row_valued_in_once(r):
+                break
     tag = 1000
     for s in r["stmts"]:
         if s[0] == "obj" and s[1].get("once"):
